@@ -19,6 +19,7 @@ APPEND = {
     'precis-core/src/common.rs': 'core_common.rs',
     'precis-core/src/context.rs': 'core_context.rs',
     'precis-core/src/lib.rs': 'core_lib.rs',
+    'precis-core/src/profile.rs': 'core_profile.rs',
     'precis-profiles/src/common.rs': 'profiles_common.rs',
     'precis-profiles/src/usernames.rs': 'profiles_usernames.rs',
     'precis-profiles/src/bidi.rs': 'profiles_bidi.rs',
@@ -98,6 +99,7 @@ SHIM = r"""
         impl Any for usize { fn any() -> Self { let b = next_bytes(8); let mut a = [0u8; 8]; a.copy_from_slice(&b); u64::from_le_bytes(a) as usize } }
         impl Any for char { fn any() -> Self { let b = next_bytes(4); match char::from_u32(u32::from_le_bytes([b[0], b[1], b[2], b[3]])) {
             Some(c) => c, None => { println!("verif-replay: counterexample shape mismatch"); std::process::exit(4) } } } }
+        impl<T: Any, const N: usize> Any for [T; N] { fn any() -> Self { std::array::from_fn(|_| T::any()) } }
         pub fn any<T: Any>() -> T { T::any() }
         pub fn assume(b: bool) { if !b { println!("verif-replay: assumption not satisfied"); std::process::exit(3) } }
         macro_rules! cover { ($($t:tt)*) => {} }
